@@ -217,7 +217,12 @@ pub fn classify(b: &[u8]) -> RefClass {
         if val.iter().any(|c| (*c < 0x20 && *c != b'\t') || *c == 0x7f || *c >= 0x80) {
             return RefClass::Unknown;
         }
-        let v = String::from_utf8_lossy(&val).trim_matches(|c| c == ' ' || c == '\t').to_string();
+        // optional white space around a value: the properties speak of surrounding *spaces*; HTAB padding is not asserted
+        // (DESIGN.md C04), so such heads are left unclassified
+        let v = String::from_utf8_lossy(&val).trim_matches(' ').to_string();
+        if v.starts_with('\t') || v.ends_with('\t') {
+            return RefClass::Unknown;
+        }
         let n = String::from_utf8_lossy(name).to_ascii_lowercase();
         match n.as_str() {
             "content-length" => {
